@@ -67,6 +67,13 @@ func (p *Prog) genFunc(fi *FuncInfo) (g *FuncGen) {
 		s := sortOf(rv.Type())
 		st.vars[o] = Val{zeroOf(s), rv.Type(), s}
 	}
+	for oldN, newN := range g.P.Renames[fi.Key] {
+		if v, ok := paramVals[newN]; ok {
+			if _, taken := paramVals[oldN]; !taken {
+				paramVals[oldN] = v
+			}
+		}
+	}
 	g.entry = st.clone()
 	// requires
 	if fi.Spec != nil {
@@ -161,7 +168,7 @@ func (g *FuncGen) frameObligations(final *State) {
 			continue
 		}
 		if isGhostKey(k) {
-			if k == "$out" || k == "$rdpos" || k == "$hashdata" || k == "$screst" || k == "$sctok" {
+			if isHiddenGhost(k) {
 				continue // hidden state of library objects and console output are not part of any frame
 			}
 			g.oblige(final, "frame", k, nil, fmt.Sprintf("(= %s %s)", final.heap[k], e), g.F.Body.Rbrace, k+" unchanged")
